@@ -101,13 +101,21 @@ def _strict(prog, pid):
         return methods(prog, {ghm: ["draw_sample"], tm: ["draw_sample"], mvm: ["conditional_sample"], f"{DI}.ConditionalDistribution": ["draw_sample"]}) + _family_methods(prog, ["draw_sample", "_get_rvs_size"] if False else ["draw_sample"])
     if pid == "C08":
         return methods(prog, cd)
+    if pid == "C14":
+        # a dependent function is fitted against the CURRENT values of its conditioners: evaluation remembers nothing
+        return methods(prog, {f"{DE}.DependenceFunction": ["__call__"]})
+    if pid == "C20":
+        # the plot functions draw (x, pdf(x)) for arrays they made themselves: a pdf that writes into its argument moves the abscissae
+        return methods(prog, {ghm: ["pdf"], f"{DI}.ConditionalDistribution": ["pdf", "_get_param_values"], f"{DE}.DependenceFunction": ["__call__"]}) + _family_methods(prog, ["pdf", "_get_scipy_parameters"])
     if pid == "C16":
         return methods(prog, {tm: ["pdf", "cdf", "empirical_cdf", "draw_sample"], mvm: ["conditional_cdf", "conditional_icdf", "conditional_sample"]})
     return []
 
 
 def _lenient(prog, pid):
-    free = {"C15": ["virocon.utils.sort_points_to_form_continuous_line"],
+    free = {"C15": ["virocon.utils.sort_points_to_form_continuous_line",
+                    # the consumers of a contour must leave contour.coordinates as the constructor returned them
+                    "virocon.utils.calculate_design_conditions", "virocon.plotting.plot_2D_contour", "virocon.contours.save_contour_coordinates"],
             "C17": ["virocon.utils.calculate_design_conditions", "virocon._intersection.intersection"],
             "C20": ["virocon.contours.save_contour_coordinates", "virocon.plotting.plot_2D_contour", "virocon.plotting.plot_2D_isodensity", "virocon.utils.read_ec_benchmark_dataset"]}
     cls = {"C01": ["IFORMContour", "ISORMContour"], "C02": ["HighestDensityContour"], "C03": ["DirectSamplingContour"], "C04": ["AndContour", "OrContour"],
